@@ -38,7 +38,13 @@ def make_server(oidc=True, jwt=False, user="diana", usage=None, keys=None, more_
         del rules["authorization_code"]["expires_in"]
     if usage == "exchange":
         rules["access_token"]["supports_minting"] = ["access_token", "refresh_token"]
-    extra = {"authz": {"class": AuthzHandling, "kwargs": {"grant_config": {"usage_rules": rules, "expires_in": 43200}}}}
+    gc = {"usage_rules": rules, "expires_in": 43200}
+    if usage == "norefrule":
+        # no rule for refresh tokens (the library's default layout): their lifetime is the token handler's, their minting rights the class defaults
+        del rules["refresh_token"]
+    if usage in ("nogrant", "norefrule"):
+        del gc["expires_in"]          # grants without a lifetime of their own (expires_at 0 = never)
+    extra = {"authz": {"class": AuthzHandling, "kwargs": {"grant_config": gc}}}
     if pkce:
         extra["add_on"] = {"pkce": {"function": "idpyoidc.server.oauth2.add_on.pkce.add_support", "kwargs": {"essential": False}}}
     s = opbase.make_op(jwt_tokens=jwt, extra=extra, user=user, keys=keys, more_endpoints=more_endpoints)
@@ -482,7 +488,7 @@ def cfg_line(oidc, jwt=False, usage=None):
     al = []
     for c in CLIENTS:
         al.append(c + "=" + " ".join(ALLOWED[c] if ALLOWED[c] is not None else DEFAULT_ALLOWED))
-    return "prov\treset\t" + ("1" if oidc else "0") + "\t" + ("1" if jwt else "0") + "\t" + enc_list(al) + ("\tx" if usage == "exchange" else "\tc1" if usage == "c1rules" else "")
+    return "prov\treset\t" + ("1" if oidc else "0") + "\t" + ("1" if jwt else "0") + "\t" + enc_list(al) + ("\tx" if usage == "exchange" else "\tc1" if usage == "c1rules" else "\tng" if usage == "nogrant" else "\tnr" if usage == "norefrule" else "")
 
 
 def parse_model(out):
